@@ -69,6 +69,11 @@ def scenarios(tier, seed=0):
     for name in (allnames[::3] if q else allnames):
         for ext in ([1, 365] if q else [1, 30, 365, 730]):
             yield {"kind": "extend", "name": name, "ext": ext}
+    # a CO2 record that is not annual over the simulated years (as the bundled record after 2010, or a user table): the concentration of a
+    # completed season must not depend on how far the run goes on (two completed seasons, extension across a table node)
+    for name in (["Wheat", "Soybean", "Potato", "Cotton"] if q else [n for n in allnames if not n.endswith("GDD")][::2]):
+        for ext in ((730,) if q else (365, 730, 1100)):
+            yield {"kind": "extend", "name": name, "ext": ext, "end": "2003/04/20", "co2": {"table": [[1990, 340.0], [2001, 370.0], [2005, 450.0], [2012, 600.0]]}}
     # ... also with time series other than weather that reach beyond the original end date (water-table observations, dated schedule)
     for name in (["Maize", "Wheat", "PotatoGDD"] if q else allnames[::2]):
         for ext in ([365] if q else [30, 365]):
@@ -158,7 +163,7 @@ def run(scn):
 
     if scn["kind"] == "extend":
         spec = A.catalogue_spec(scn["name"], word="hot", irr="smt", iwc="Pct50", dz="deep30" if scn.get("gw") else "d12",
-                                start="2001/04/11" if scn.get("pre") else "2001/05/01", cropkw=scn.get("cropkw"), off=bool(scn.get("off")), **({"end": scn["end"]} if scn.get("end") else {}))
+                                start="2001/04/11" if scn.get("pre") else "2001/05/01", cropkw=scn.get("cropkw"), off=bool(scn.get("off")), co2=scn.get("co2"), **({"end": scn["end"]} if scn.get("end") else {}))
         if scn.get("off"):
             hit("extension_with_off_season")
         if scn.get("gw"):
